@@ -179,7 +179,7 @@ func c01R1(p *Prog, r *Report) {
 		}
 	}
 	for k := 0; k < arms; k++ {
-		nk := stripInt(resolvePhi(x, n, k))
+		nk := stripRound(stripInt(stripRound(resolvePhi(x, n, k))))
 		wk := resolvePhi(x, w, k)
 		prod := nk.Mul(wk)
 		diff := prod.Sub(dt)
@@ -210,6 +210,78 @@ func c01R1(p *Prog, r *Report) {
 		}
 		r.Ob(fmt.Sprintf("partition:arm%d", k), pos, ok, detail)
 	}
+	// float soundness of the conversion: the identity n·w ≡ DT above is in real arithmetic; in float64 a
+	// quotient such as DT/(1/n) can fall just below n (1/(1/93) = 92.99999999999999), and int() then drops a
+	// sub-step.  Every definition of the variable converted by int() in the loop bound must therefore be
+	// free of float division or be wrapped in a rounding call.
+	var bound ast.Expr
+	if fs, ok := si.Loop.Stmt.(*ast.ForStmt); ok {
+		if be, ok := fs.Cond.(*ast.BinaryExpr); ok {
+			bound = be.Y
+		}
+	}
+	var conv *ast.Ident
+	if call, ok := bound.(*ast.CallExpr); ok && len(call.Args) == 1 {
+		if id, ok := call.Fun.(*ast.Ident); ok && id.Name == "int" {
+			conv, _ = call.Args[0].(*ast.Ident)
+		}
+	}
+	if conv == nil {
+		r.Ob("float-exact", pos, false, "the sub-step loop bound is not int(<variable>)")
+		return
+	}
+	obj := x.Info.Uses[conv]
+	nDefs := 0
+	for _, e := range x.Events {
+		if e.Kind != "assign" || e.Local == nil || e.Local != obj {
+			continue
+		}
+		as, ok := e.Stmt.(*ast.AssignStmt)
+		if !ok {
+			continue
+		}
+		for i, l := range as.Lhs {
+			id, isId := l.(*ast.Ident)
+			if !isId || (x.Info.Uses[id] != obj && x.Info.Defs[id] != obj) || i >= len(as.Rhs) {
+				continue
+			}
+			nDefs++
+			rhs := as.Rhs[i]
+			rounded := false
+			if call, ok := rhs.(*ast.CallExpr); ok {
+				if f := callee(x.Info, call); f != nil && f.Pkg() != nil && f.Pkg().Path() == "math" && (f.Name() == "Round" || f.Name() == "Ceil" || f.Name() == "Floor" || f.Name() == "RoundToEven") {
+					rounded = true
+				}
+			}
+			div := false
+			ast.Inspect(rhs, func(m ast.Node) bool {
+				if be, ok := m.(*ast.BinaryExpr); ok && be.Op == token.QUO {
+					if tv, ok := x.Info.Types[be]; ok && tv.Value == nil && !isIntegerType(tv.Type) {
+						div = true
+					}
+				}
+				return true
+			})
+			okF := rounded || !div
+			r.Ob("float-exact", p.Pos(as.Pos()), okF, fmt.Sprintf("%s = %s: %s", conv.Name, types.ExprString(rhs), map[bool]string{true: "exact integer in float64 (no float division, or rounded to the nearest integer before int())", false: "a float quotient is truncated by int(): for n = 93, 99, 105, … the quotient 1/(1/n) is just below n, one sub-step and its share of the day's water is dropped"}[okF]))
+		}
+	}
+	if nDefs == 0 {
+		r.Ob("float-exact", pos, false, "no definition of the converted trip-count variable found")
+	}
+}
+
+// stripRound removes round/ceil/floor/trunc around values that are integral in real arithmetic.
+func stripRound(q Poly) Poly {
+	return q.Subst(func(a *Atom) (Poly, bool) {
+		if a.Kind == "call" && (a.Fn == "round" || a.Fn == "ceil" || a.Fn == "floor" || a.Fn == "trunc") && len(a.Args) == 1 {
+			in := stripRound(a.Args[0])
+			if isIntegral(stripInt(in)) {
+				return in, true
+			}
+		}
+		return Poly{}, false
+	})
 }
 
 func polyOr(q Poly) string {
